@@ -35,7 +35,7 @@ TABLE = [
     (r'^v3::codec::decode::publish_size$|^v5::codec::packet::publish::Publish::packet_header_size$', 'assert', r'^BoundsCheck$', 'DERIVED', 'src[0], src[1] after `remaining() < 2 => return Ok(None)`', 2),
     (r'^v3::codec::decode::publish_size$|^v5::codec::packet::publish::Publish::packet_header_size$', 'assert', r'^Overflow:Add$', 'DERIVED',
      'u32::from(u16) + 2 (+ 2) <= 65539; v5: len + prop_len + pos with prop_len <= 0x0FFF_FFFF and pos <= 4 (C02.varint)', 4),
-    (r'^v5::codec::packet::publish::Publish::packet_header_size$', 'panic-call', r'^index!$', 'DERIVED', '&src[len..] after `remaining() < len => return Ok(None)`', 1),
+    (r'^v5::codec::packet::publish::Publish::packet_header_size$', 'panic-call', r'^index!$', 'GUARDED-INDEX', '&src[len..] after `remaining() < len => return Ok(None)` (checked: same value of len, no update in between)', 1),
     (r'^<v5::codec::packet::pubacks::PublishAck2? as std::default::Default>::default$', 'unwrap', r'.*', 'PROVEN', 'NonZeroU16::new(1).unwrap() on a literal', 1),
     (r'^utils::decode_variable_length_cursor$', 'assert', r'^Overflow:(Shl|Add)$', 'VARINT', 'shift in {0,7,14,21} and the sum of four 7-bit groups < 2^28: established by the C02.varint rule', 3),
 ]
@@ -160,7 +160,10 @@ def nopanic(F, R, cg):
             if used[(i, ptop)] > cnt:
                 R.ob('C02.nopanic', key + '|extra', False, 'more sites of this shape than reviewed (%d > %d): %s' % (used[(i, ptop)], cnt, reason), s['loc'])
                 continue
-            if cls == 'MIN-IDIOM':
+            if cls == 'GUARDED-INDEX':
+                ok, why_ = guarded_index(b, s)
+                R.ob('C02.nopanic', key, ok, ('PROVEN (guarded index): ' if ok else 'the slice start is not covered by a length test of the same value: ') + why_ + ' - ' + reason, s['loc'], status='proven' if ok else None)
+            elif cls == 'MIN-IDIOM':
                 ok = min_idiom(b, s)
                 R.ob('C02.nopanic', key, ok, ('PROVEN (min idiom): ' if ok else 'min idiom not found: ') + reason, s['loc'], status='proven' if ok else None)
             elif cls == 'VARINT':
@@ -171,6 +174,64 @@ def nopanic(F, R, cg):
                     R.assume('%s %s: %s' % (p, s['what'], reason))
     R.floor('C02.nopanic', 'sites examined', n, 80)
     R.floor('C02.nopanic', 'buffer-consuming calls', n_cons, 40)
+
+
+def _base_local(b, op, depth=0):
+    """The variable an operand's value is read from, through casts and plain copies of single-definition temporaries."""
+    p = op_place(op)
+    while p is not None and not place_proj(p) and depth < 8:
+        ds = [d for d in b.whole_defs(p['l']) if d[0] in b.live]
+        if len(ds) == 1 and ds[0][2] == 'assign' and ds[0][3]['rv']['k'] in ('use', 'cast') and op_place(ds[0][3]['rv']['op']) is not None and not b.local_name(p['l']):
+            p = op_place(ds[0][3]['rv']['op'])
+            depth += 1
+        else:
+            break
+    return p['l'] if p is not None and not place_proj(p) else None
+
+
+def guarded_index(b, site):
+    """`&buf[start..]`: a dominating test `buf.remaining()/len() < start` (taken on its false edge) uses the same variable as
+    the slice start, and that variable is not assigned on any path between the test and the slice."""
+    t = site['term']
+    rng = op_place(t['args'][1]) if len(t['args']) > 1 else None
+    start_op = None
+    for d in (b.whole_defs(rng['l']) if rng else []):
+        if d[2] == 'assign' and d[3]['rv']['k'] == 'agg' and 'Range' in (d[3]['rv'].get('adt') or '') and d[3]['rv']['fields']:
+            start_op = d[3]['rv']['fields'][0]
+    if start_op is None:
+        return False, 'range start not found'
+    base = _base_local(b, start_op)
+    if base is None:
+        return False, 'range start is not a plain variable'
+    for xb, j, st in b.assigns():
+        rv = st['rv']
+        if rv['k'] != 'bin' or rv['op'] not in ('Lt', 'Ge', 'Gt', 'Le'):
+            continue
+        sides = [(rv['a'], rv['b']), (rv['b'], rv['a'])]
+        for k_, (x, y) in enumerate(sides):
+            if _base_local(b, y) != base:
+                continue
+            og = Origin(b).of_operand(x)
+            if not any(l[0] == 'call' and re.search(r'::(remaining|len)$', l[1] or '') for l in og):
+                continue
+            r = bool_branch(b, xb, st['lhs']['l'])
+            if not r:
+                continue
+            _, tt, ft = r
+            # edge on which  avail >= start  holds
+            op = rv['op']
+            if k_ == 0:   # avail <op> start
+                good = {'Lt': ft, 'Ge': tt, 'Gt': None, 'Le': None}[op]
+            else:         # start <op> avail
+                good = {'Gt': ft, 'Le': tt, 'Lt': None, 'Ge': None}[op]
+            if good is None or not edge_dominates(b, xb, good, site['block']):
+                continue
+            between = b.reachable(good)
+            redef = [d for d in b.whole_defs(base) if d[0] in between and site['block'] in b.reachable(d[0]) and d[0] != site['block']]
+            if redef:
+                return False, 'the variable is updated at %s between the length test and the slice' % b.loc(redef[0][0])
+            return True, 'length test at %s' % b.loc(xb)
+    return False, 'no dominating `remaining() < start` test of the slice start variable'
 
 
 def min_idiom(b, s):
